@@ -3742,9 +3742,17 @@ impl<Front: SocketHandler> ConnectionH2<Front> {
                     MuxResult::CloseSession
                 }
             }
-            (H2State::Error, _)
-            | (H2State::ClientSettings, Position::Server)
-            | (H2State::ServerSettings, Position::Client(..)) => {
+            // The preface and our SETTINGS are out, the backend's SETTINGS have
+            // not arrived yet. A stream started on this connection, or request
+            // bytes arriving for one, arm WRITABLE during that window: nothing can
+            // be sent before the handshake ends, and `handle_settings_frame`
+            // re-arms the writer then. Disconnecting here cut every stream
+            // multiplexed on the connection.
+            (H2State::ServerSettings, Position::Client(..)) => {
+                self.readiness.interest.remove(Ready::WRITABLE);
+                MuxResult::Continue
+            }
+            (H2State::Error, _) | (H2State::ClientSettings, Position::Server) => {
                 error!(
                     "{} Unexpected combination: (Writable, {:?}, {:?})",
                     log_context!(self),
